@@ -8,6 +8,8 @@ chain satisfying it — for every Unicode string of every length.
 import MorphKgc.Gen.Escape
 import MorphKgc.Lemmas.Escape
 import MorphKgc.Lemmas.Pct
+import MorphKgc.Lemmas.SpecNQ
+import MorphKgc.Props.C01
 
 namespace Props.C05
 open Py Model Spec
@@ -66,6 +68,96 @@ theorem C05_pct_valid_iri (safe : Str) (hsafe : safe.all isIriChar = true) (v : 
 /-- non-vacuity: a value with every kind of dangerous character -/
 example : pctDecode (pctEncode [] "a b>\"é{".toList) = some "a b>\"é{".toList := C05_pct_roundtrip [] (by decide) _
 example : pctEncode [] "a b>".toList = "a%20b%3E".toList := by decide +kernel
+
+
+/-! ### whole lines: every emitted statement is in the grammar and is read back (all documents of the scope, all tables)
+
+`Spec.GrammarOK` (decidable, `Lemmas/SpecNQ.lean`) is the scope: it excludes exactly the recorded findings C05_F1
+(reference-valued IRIs), C05_F2 (data-derived blank-node labels), RDF-star term maps, and mappings whose own constants,
+language tags or datatype IRIs are outside the grammar.  `NQ.parseLine` is the verified N-Quads(-star) lexer of
+`Spec/NQuads.lean`; `term` is the terminator a writer or loader appends (`.` or ` .`). -/
+
+/-- **Generation rules.** Every string the rules produce for a document of the scope, closed by the terminator, is a line
+    of the N-Triples / N-Quads grammar, and parsing it returns a well-formed statement whose engine-shaped rendering is
+    that string (so two different statements never share a line and no line denotes two statements). -/
+theorem C05_rules_lines_valid (senv : SEnv) (doc : Doc) (hok : GrammarOK senv doc = true) (line : Str)
+    (hl : line ∈ evalDoc senv doc) {term : Str} (hterm : NQ.TermOK term) :
+    ∃ st : NQ.Stmt, NQ.wfStmt st = true ∧ NQ.parseLine (line ++ term) = some st ∧
+      line = NQ.renderStmtBody (shapeOf senv.fmt) st := by
+  obtain ⟨st, hwf, hg, rfl⟩ := evalDoc_wf senv doc hok line hl
+  exact ⟨st, hwf, NQ.parseLine_body _ st hwf hg hterm, rfl⟩
+
+/-- **Engine.** For every document of the core fragment (C01) inside the grammar scope and all tables satisfying the reader
+    guarantees, the engine does not raise and every line it emits is valid and is read back. -/
+theorem C05_engine_lines_valid_partial {env : Env} {senv : SEnv} (henv : EnvOK env senv) (hn : NamesOK senv) (doc : Doc)
+    (hfrag : Props.C01.FragmentOK senv doc = true) (htab : Props.C01.TablesOK senv doc = true)
+    (hF4 : Props.C01.NoF4 senv doc = true) (hok : GrammarOK senv doc = true) {term : Str} (hterm : NQ.TermOK term) :
+    ∃ out, evalAll env (normalizeDoc doc) = .ok out ∧
+      ∀ line ∈ out, ∃ st : NQ.Stmt, NQ.wfStmt st = true ∧ NQ.parseLine (line ++ term) = some st ∧
+        line = NQ.renderStmtBody (shapeOf senv.fmt) st := by
+  obtain ⟨out, hout, hiff⟩ := Props.C01.C01_refinement_partial henv hn doc hfrag htab hF4
+  exact ⟨out, hout, fun line hl => C05_rules_lines_valid senv doc hok line ((hiff line).mp hl) hterm⟩
+
+/-- distinct statements print distinct lines (the renderer is injective on well-formed statements of one shape) -/
+theorem C05_lines_injective (sh : NQ.Shape) (st st' : NQ.Stmt) (hw : NQ.wfStmt st = true) (hw' : NQ.wfStmt st' = true)
+    (hg : sh = .triple → st.g = none) (hg' : sh = .triple → st'.g = none)
+    (h : NQ.renderStmtBody sh st = NQ.renderStmtBody sh st') : st = st' := by
+  have a := NQ.parseLine_body sh st hw hg (Or.inl rfl)
+  have b := NQ.parseLine_body sh st' hw' hg' (Or.inl rfl)
+  rw [h, b] at a
+  exact (Option.some.inj a).symm
+
+/-- **Round trip of the data (literals).** For a reference-valued literal object map, the parsed object of every
+    generated statement is a literal whose lexical form is the cell, character for character, with the declared
+    language tag or datatype. -/
+theorem C05_literal_is_cell (senv : SEnv) (doc : Doc) (hdoc : ∀ t ∈ doc.tms, SubjGOK senv.safe t.subject = true)
+    (tm : TriplesMap) (ρ : Row) (gs : List TermMap) (p om : TermMap)
+    (hs : SubjGOK senv.safe tm.subject = true) (hp : PredGOK senv.safe p = true) (ho : TMGrammarOK senv.safe om = true)
+    (hgs : gs.all (GraphGOK senv.safe senv.defaultGraph) = true)
+    (hk : om.kind = .reference) (hlit : om.termType = .literal)
+    (line : Str) (hl : line ∈ stmtsFor senv doc tm ρ gs p (.term om)) {term : Str} (hterm : NQ.TermOK term) :
+    ∃ st : NQ.Stmt, NQ.parseLine (line ++ term) = some st ∧
+      ∃ v, valueOf senv.na ρ om.value = some v ∧ st.o = .lit v (litKindOf om) := by
+  obtain ⟨st, hwf, hg, rfl, _, _, hobj⟩ := stmtsFor_wf senv doc hdoc tm ρ gs p (.term om) hs hp (by simpa [ObjGOK] using ho) hgs line hl
+  refine ⟨st, NQ.parseLine_body _ st hwf hg hterm, ?_⟩
+  obtain ⟨v, hv, hst⟩ := hobj
+  refine ⟨v, ?_, by simpa [toNQ, hlit] using hst⟩
+  simpa [genValue, hk] using hv
+
+/-- **Round trip of the data (template IRIs).** For a subject template `pre{c}suf` of term type IRI, the parsed subject
+    of every generated statement is the IRI `pre ++ enc ++ suf` where `enc` percent-decodes to the cell. -/
+theorem C05_template_iri_decodes (senv : SEnv) (hsafe : senv.safe.contains '%' = false) (doc : Doc)
+    (hdoc : ∀ t ∈ doc.tms, SubjGOK senv.safe t.subject = true)
+    (tm : TriplesMap) (ρ : Row) (gs : List TermMap) (p : TermMap) (o : ObjMap) (pre c suf : Str)
+    (hsub : tm.subject = { kind := .template, tpl := ⟨pre, [(c, suf)]⟩, termType := .iri })
+    (hs : SubjGOK senv.safe tm.subject = true) (hp : PredGOK senv.safe p = true) (ho : ObjGOK senv.safe o = true)
+    (hgs : gs.all (GraphGOK senv.safe senv.defaultGraph) = true)
+    (line : Str) (hl : line ∈ stmtsFor senv doc tm ρ gs p o) {term : Str} (hterm : NQ.TermOK term) :
+    ∃ st : NQ.Stmt, NQ.parseLine (line ++ term) = some st ∧
+      ∃ v enc, valueOf senv.na ρ c = some v ∧ st.s = .iri (pre ++ enc ++ suf) ∧ pctDecode enc = some v := by
+  obtain ⟨st, hwf, hg, rfl, ⟨sv, hsv, hst⟩, _, _⟩ := stmtsFor_wf senv doc hdoc tm ρ gs p o hs hp ho hgs line hl
+  refine ⟨st, NQ.parseLine_body _ st hwf hg hterm, ?_⟩
+  rw [hsub] at hsv hst
+  simp only [genValue, List.foldl_cons, List.foldl_nil, if_true] at hsv
+  cases hv : valueOf senv.na ρ c with
+  | none => simp [hv] at hsv
+  | some v =>
+    simp only [hv, Option.some.injEq] at hsv
+    subst hsv
+    exact ⟨v, pctEncode senv.safe v, rfl, by simpa [toNQ] using hst, pctDecode_pctEncode senv.safe hsafe v⟩
+
+/-- non-vacuity: the example document of C01 (template IRIs, a language-tagged reference literal with quotes in the data, a
+    typed template literal, a template graph map, a class) lies inside the scope, and its lines are read back -/
+example : GrammarOK Props.C01.Ex.senv Props.C01.Ex.doc = true := by decide +kernel
+example : ∃ out, evalAll Props.C01.Ex.env (normalizeDoc Props.C01.Ex.doc) = .ok out ∧
+    ∀ line ∈ out, ∃ st : NQ.Stmt, NQ.wfStmt st = true ∧ NQ.parseLine (line ++ ['.']) = some st ∧
+      line = NQ.renderStmtBody (shapeOf Props.C01.Ex.senv.fmt) st :=
+  C05_engine_lines_valid_partial Props.C01.Ex.envOK Props.C01.Ex.namesOK _ Props.C01.Ex.fragmentOK Props.C01.Ex.tablesOK
+    Props.C01.Ex.noF4 (by decide +kernel) (Or.inl rfl)
+
+/-- what the scope excludes, on the rules' side: a reference-valued IRI whose cell holds `>` leaves the grammar -/
+theorem C05_F1_line_not_parsed :
+    NQ.parseLine ("<a>b> <http://ex/p> <http://ex/o>".toList ++ ['.']) = none := by decide +kernel
 
 /-! ### what is *not* true of the unchanged code (counter-witness theorems; see known_findings.json) -/
 
